@@ -4,6 +4,7 @@ package telemetry
 
 import (
 	"bufio"
+	"encoding/binary"
 	"encoding/json"
 	"fmt"
 	"os"
@@ -422,10 +423,38 @@ func TestVerifC16Table(t *testing.T) {
 }
 
 // TestVerifC16Token: concurrent starters racing for the upload token.
+// c16Zone builds a time zone (TZif version 1 data) whose UTC offset changes
+// from `before` to `after` seconds at the instant at.
+func c16Zone(at time.Time, before, after int32) *time.Location {
+	var b []byte
+	be32 := func(v uint32) { b = binary.BigEndian.AppendUint32(b, v) }
+	b = append(b, "TZif"...)
+	b = append(b, 0)
+	b = append(b, make([]byte, 15)...)
+	be32(0) // UT/local indicators
+	be32(0) // standard/wall indicators
+	be32(0) // leap seconds
+	be32(1) // transitions
+	be32(2) // local time types
+	be32(8) // abbreviation bytes
+	be32(uint32(int32(at.Unix())))
+	b = append(b, 1)
+	be32(uint32(before))
+	b = append(b, 0, 0)
+	be32(uint32(after))
+	b = append(b, 1, 4)
+	b = append(b, "AAA\x00BBB\x00"...)
+	loc, err := time.LoadLocationFromTZData("Verif/Shift", b)
+	if err != nil {
+		return time.UTC
+	}
+	return loc
+}
+
 func TestVerifC16Token(t *testing.T) {
 	const check = "C16.token"
 	res := verifrt.NewResult(check)
-	res.Rule = "2-6 virtual threads call acquireUploadToken on one directory under the token-passing scheduler (scheduling point at its Stat/Remove/OpenFile), token initially absent or fresh (stale-token races are excluded by the property), in every other case with an injected failure (ENOSPC, EACCES, EMFILE, EROFS, EIO, ENOENT, EDQUOT) of one or all of the token file's Stat/Remove/OpenFile calls, strategies park-at-k / PCT / random; then 2-24 real processes started together with Upload set. Oracle: at most one caller acquires (true returns / sidecars with the upload flag) and only a caller whose exclusive create succeeded (from the system-call event log). distinct = distinct traces"
+	res.Rule = "2-6 virtual threads call acquireUploadToken on one directory under the token-passing scheduler (scheduling point at its Stat/Remove/OpenFile), token initially absent or fresh (written 0s..23h45m ago; stale-token races are excluded by the property), the process's local time zone set to UTC, fixed +14h/-11h offsets or a synthetic zone whose offset changed by an hour within the last day, in every other case with an injected failure (ENOSPC, EACCES, EMFILE, EROFS, EIO, ENOENT, EDQUOT) of one or all of the token file's Stat/Remove/OpenFile calls, strategies park-at-k / PCT / random; then 2-24 real processes started together with Upload set. Oracle: at most one caller acquires (true returns / sidecars with the upload flag) and only a caller whose exclusive create succeeded (from the system-call event log). distinct = distinct traces"
 	base, _ := os.MkdirTemp(os.Getenv("VERIF_TMP"), "c16t-")
 	defer os.RemoveAll(base)
 	n := verifrt.Scale(600, 30000)
@@ -441,7 +470,30 @@ func TestVerifC16Token(t *testing.T) {
 		os.MkdirAll(itelemetry.Default.LocalDir(), 0o777)
 		fresh := i%4 == 3
 		if fresh {
-			os.WriteFile(filepath.Join(itelemetry.Default.LocalDir(), "upload.token"), nil, 0o666)
+			// a token acquired up to 23h59m ago is still fresh, whatever the local
+			// time zone did meanwhile (a day with a daylight-saving change is 23
+			// or 25 hours long on the wall clock)
+			tp := filepath.Join(itelemetry.Default.LocalDir(), "upload.token")
+			os.WriteFile(tp, nil, 0o666)
+			age := verifrt.Pick(rnd, []time.Duration{0, time.Hour, 12 * time.Hour, 23 * time.Hour, 23*time.Hour + 30*time.Minute, 23*time.Hour + 45*time.Minute}) // (a quarter of an hour of slack for a stalled machine)
+			at := time.Now().Add(-age)
+			os.Chtimes(tp, at, at)
+			res.Hit(fmt.Sprintf("fresh-token-age:%v", age))
+		}
+		zone := verifrt.Pick(rnd, []string{"", "", "spring-forward", "fall-back", "east", "west"})
+		oldLocal := time.Local
+		switch zone {
+		case "spring-forward":
+			time.Local = c16Zone(time.Now().Add(-time.Duration(1+rnd.Intn(23))*time.Hour), 0, 3600)
+		case "fall-back":
+			time.Local = c16Zone(time.Now().Add(-time.Duration(1+rnd.Intn(23))*time.Hour), 3600, 0)
+		case "east":
+			time.Local = time.FixedZone("E", 14*3600)
+		case "west":
+			time.Local = time.FixedZone("W", -11*3600)
+		}
+		if zone != "" {
+			res.Hit("local-zone:" + zone)
 		}
 		nt := 2 + rnd.Intn(5)
 		got := make([]bool, nt)
@@ -486,6 +538,7 @@ func TestVerifC16Token(t *testing.T) {
 			sc.Choose = verifrt.ChooseRandom
 		}
 		sc.Run(20 * time.Second)
+		time.Local = oldLocal
 		verifrt.SetPlan(nil)
 		res.Eval()
 		res.Distinct(string(sc.Trace))
@@ -586,7 +639,7 @@ func TestVerifC16Token(t *testing.T) {
 		}
 		os.RemoveAll(work)
 	}
-	res.Require("strategy:park", "strategy:pct", "one-winner", "real-race-round", "fault:OpenFile", "fault:Stat", "fault-on-every-or-last-starter")
+	res.Require("strategy:park", "strategy:pct", "one-winner", "real-race-round", "fault:OpenFile", "fault:Stat", "fault-on-every-or-last-starter", "local-zone:spring-forward", "local-zone:fall-back", "fresh-token-age:23h30m0s")
 	if err := res.Write(); err != nil {
 		t.Fatal(err)
 	}
